@@ -12,10 +12,12 @@ package planner
 
 import (
 	cid "github.com/ipfs/go-cid"
+	ipld "github.com/ipfs/go-ipld-format"
 	cidlink "github.com/ipld/go-ipld-prime/linking/cid"
 
 	"github.com/sourcenetwork/immutable"
 
+	acpTypes "github.com/sourcenetwork/defradb/acp/types"
 	"github.com/sourcenetwork/defradb/client"
 	"github.com/sourcenetwork/defradb/client/request"
 	"github.com/sourcenetwork/defradb/errors"
@@ -23,6 +25,7 @@ import (
 	coreblock "github.com/sourcenetwork/defradb/internal/core/block"
 	"github.com/sourcenetwork/defradb/internal/datastore"
 	"github.com/sourcenetwork/defradb/internal/db/fetcher"
+	"github.com/sourcenetwork/defradb/internal/db/permission"
 	"github.com/sourcenetwork/defradb/internal/keys"
 	"github.com/sourcenetwork/defradb/internal/planner/mapper"
 )
@@ -37,6 +40,9 @@ type dagScanNode struct {
 	visitedNodes map[string]bool
 
 	queuedCids []*cid.Cid
+
+	// readableDocs remembers, per document, whether the requester may read it.
+	readableDocs map[string]bool
 
 	fetcher      fetcher.HeadFetcher
 	prefix       immutable.Option[keys.HeadstoreKey]
@@ -235,6 +241,20 @@ func (n *dagScanNode) Next() (bool, error) {
 		return false, err
 	}
 
+	readable, err := n.isReadableByRequester(dagBlock)
+	if err != nil {
+		return false, err
+	}
+	if !readable {
+		// The commit belongs to a document the requester is not allowed to read: it is
+		// treated like a commit that does not exist.
+		if n.commitSelect.Cid.HasValue() && len(n.visitedNodes) == 0 {
+			return false, errors.Join(ErrMissingCID, ipld.ErrNotFound{Cid: *currentCid})
+		}
+		n.visitedNodes[currentCid.String()] = true
+		return n.Next()
+	}
+
 	if n.commitSelect.FieldName.HasValue() {
 		matchesFieldName := false
 		if n.commitSelect.FieldName.Value() == request.CompositeFieldName {
@@ -333,6 +353,53 @@ which returns the current dag commit for the stored CRDT value.
 
 All the dagScanNode endpoints use similar structures
 */
+
+// isReadableByRequester returns false if the block is a commit of a document that the
+// document access control hides from the requester.
+func (n *dagScanNode) isReadableByRequester(block *coreblock.Block) (bool, error) {
+	if !n.planner.documentACP.HasValue() {
+		return true, nil
+	}
+	docID := string(block.Delta.GetDocID())
+	if docID == "" {
+		return true, nil
+	}
+	if readable, ok := n.readableDocs[docID]; ok {
+		return readable, nil
+	}
+
+	cols, err := n.planner.db.GetCollections(
+		n.planner.ctx,
+		client.CollectionFetchOptions{
+			IncludeInactive: immutable.Some(true),
+			VersionID:       immutable.Some(block.Delta.GetSchemaVersionID()),
+		},
+	)
+	if err != nil {
+		return false, err
+	}
+	if len(cols) == 0 {
+		// reported by dagBlockToNodeDoc
+		return true, nil
+	}
+
+	readable, err := permission.CheckAccessOfDocOnCollectionWithACP(
+		n.planner.ctx,
+		n.planner.identity,
+		n.planner.documentACP.Value(),
+		cols[0],
+		acpTypes.DocumentReadPerm,
+		docID,
+	)
+	if err != nil {
+		return false, err
+	}
+	if n.readableDocs == nil {
+		n.readableDocs = make(map[string]bool)
+	}
+	n.readableDocs[docID] = readable
+	return readable, nil
+}
 
 func (n *dagScanNode) dagBlockToNodeDoc(block *coreblock.Block) (core.Doc, error) {
 	commit := n.commitSelect.DocumentMapping.NewDoc()
